@@ -2,7 +2,9 @@
  *
  *   h_thr <select|poll|epoll> <pool:0|1|4|tpc> <clients> <duration_ms> <seed> [features]
  *
- * features: comma list out of  listen,add,susp,auth,cb,post,opt,abort  (default: all)
+ * features: comma list out of  listen,add,susp,auth,cb,post,opt,abort  (default: all), plus
+ *           quiet = the clients finish and disconnect before MHD_stop_daemon() is called, so that only
+ *           the inter-thread channel can wake the polling threads (a missing signal => watchdog)
  *
  * Real library objects, a daemon with an internal polling thread (or a worker pool,
  * or thread-per-connection), M client threads talking real HTTP over
@@ -50,7 +52,7 @@ static struct MHD_Response *resp_cb;
 static struct MHD_Response *resp_post;
 static uint16_t port;
 
-static int f_listen = 1, f_add = 1, f_susp = 1, f_auth = 1, f_cb = 1, f_post = 1, f_opt = 1, f_abort = 1;
+static int f_listen = 1, f_add = 1, f_susp = 1, f_auth = 1, f_cb = 1, f_post = 1, f_opt = 1, f_abort = 1, f_quiet = 0;
 
 /* harness state: atomics only, so that TSan reports concern the library */
 static int stopping;        /* no new suspends */
@@ -481,6 +483,7 @@ int main (int argc, char **argv)
   feat = argc > 6 ? argv[6] : "listen,add,susp,auth,cb,post,opt,abort";
   f_listen = has (feat, "listen"); f_add = has (feat, "add"); f_susp = has (feat, "susp"); f_auth = has (feat, "auth");
   f_cb = has (feat, "cb"); f_post = has (feat, "post"); f_opt = has (feat, "opt"); f_abort = has (feat, "abort");
+  f_quiet = has (feat, "quiet");
   if (nclients < 1) nclients = 1;
   if (nclients > 64) nclients = 64;
   wd_ms = getenv ("H_THR_WATCHDOG_MS") ? atol (getenv ("H_THR_WATCHDOG_MS")) : 10000;
@@ -535,6 +538,12 @@ int main (int argc, char **argv)
   t0 = now_ms ();
   while ((long) (now_ms () - t0) < duration) usleep (2000);
 
+  if (f_quiet)
+  {
+    ST (clients_quit, 1);
+    for (i = 0; i < nclients; i++) pthread_join (cth[i], NULL);
+    usleep (300000);      /* let the daemon notice the disconnects and go to sleep */
+  }
   /* quiesce what the API requires to be quiet before MHD_stop_daemon(): no suspended
    * connections (API contract), no concurrent MHD_add_connection / MHD_get_daemon_info on a
    * daemon that is being freed.  Network load on existing and new TCP connections continues. */
@@ -560,7 +569,8 @@ int main (int argc, char **argv)
   t1 = now_ms ();
   ST (stop_done, 1);
   ST (clients_quit, 1);
-  for (i = 0; i < nclients; i++) pthread_join (cth[i], NULL);
+  if (! f_quiet)
+    for (i = 0; i < nclients; i++) pthread_join (cth[i], NULL);
   pthread_join (rth, NULL);
   pthread_join (mth, NULL);
   pthread_join (wth, NULL);
